@@ -122,7 +122,9 @@ def check_adaptive_unitfree(ctx):
         v0 = e.data['value']
         if not isinstance(v0, Num):
             continue
-        k = e.loops[0].sym
+        from .c06 import entry_index
+        recv = e.node.func.value if isinstance(e.node, ast.Call) and isinstance(e.node.func, ast.Attribute) else None
+        k = entry_index(ev, e.loops[0], [recv.id] if isinstance(recv, ast.Name) else [], 'C07.3')
         inst = f"append at {e.loc()}"
         # branch conditions (statement guards and conditional values alike): only zero tests of adjacent jumps
         preds = list(e.guard) + [t for t in walk_vals(v0) if isinstance(t, P)]
